@@ -10,12 +10,18 @@
 (*  member function (rename an output onto another output / onto an own parameter, rename a parameter onto an own        *)
 (*  output / into a cycle, contradicting default), followed by map or by a call; and on the call side                    *)
 (*  pipeline(out, **kw) with a dropped keyword (missing argument) or an added keyword (surplus).                         *)
+(*  Construction-time faults met through the CALL side: a MapSpec-free base (all of C02; N = 3 gives pipelines in which   *)
+(*  a third function lies upstream of / beside the fault) with a rename collision, an added edge or a changed default,    *)
+(*  then EVERY output requested through every call-style entry (pipeline(out, **kw), run, func) with exactly the          *)
+(*  keywords the needed functions read; the same for the faults introduced after construction.  Which families of         *)
+(*  mutants a TLC process generates is the constant Families.                                                             *)
 (*  Trace part (mechanism C): requests built by the harness (fixed examples from the repository's tests, random        *)
 (*  larger mutants) with the recorded outcome of the real code; TLC runs the Prepare machine on the request and        *)
 (*  accepts the record iff it is an end state of the machine.                                                          *)
 EXTENDS Validity, SequencesExt, Json, IOUtils, TLCExt
 CONSTANTS MaxSize, RichM, ShardM, NShardsM,     \* the MC_MapDenote universe (sharded there)
-          N, RichP, ShardP, NShardsP            \* the MC_PipelineCall universe (sharded here by description)
+          N, RichP, ShardP, NShardsP,           \* the MC_PipelineCall universe (sharded here by description)
+          Families                              \* which mutant families this process generates: a subset of AllFamilies
 
 VARIABLES mut,      \* universe part: the mutant record [op, req, how] (req.prev = the valid base case, how = the public-API
                     \* operation that produces the fault after construction, if any); trace part: 0
@@ -180,15 +186,31 @@ ReadRoots(dd, o) == {p \in RootArgs(dd) : \E i \in Needed(dd, <<>>, o) : p \in P
 CallKw(names) == LET s == SetToSeq(names) IN [k \in 1..Len(s) |-> <<s[k], P!KV(s[k])>>]
 (* the inputs of the base that are still root arguments of the changed pipeline *)
 StillRoots(dd, inputs) == SelectSeq(inputs, LAMBDA pr : pr[1] \in RootArgs(dd))
-PostMutants(b) ==
+(* a call-style request for output o of description dd with exactly the keywords that the functions needed for o read *)
+CallFor(dd, o, e, b) == [desc |-> dd, inputs |-> CallKw(ReadRoots(dd, o)), cfg |-> Cfg("file_array", TRUE, FALSE), prev |-> b,
+                         entry |-> e, out |-> o]
+PostMapMutants(b) ==
     {[op |-> m.op, req |-> MapReq([desc |-> m.desc, inputs |-> StillRoots(m.desc, b.inputs)], Cfg("file_array", cl, TRUE), b),
       how |-> m.how] : m \in PostMutations(b), cl \in BOOLEAN}
-    \cup (IF NoMapSpecs(b.desc)
-          THEN {[op |-> m.op, how |-> m.how,
-                 req |-> [desc |-> m.desc, inputs |-> CallKw(ReadRoots(m.desc, LastOut(m.desc))),
-                          cfg |-> Cfg("file_array", TRUE, FALSE), prev |-> b, entry |-> "call", out |-> LastOut(m.desc)]] :
+(* ... followed by a call of ANY output of the changed pipeline (not only the last one: the fault may lie downstream of  *)
+(* or beside the requested output, and then no evaluation ever walks into it)                                            *)
+PostCallMutants(b) ==
+    IF NoMapSpecs(b.desc)
+    THEN UNION {{[op |-> m.op, how |-> m.how, req |-> CallFor(m.desc, o, "call", b)] : o \in AllOutputs(m.desc)} :
                     m \in PostMutations(b)}
-          ELSE {})
+    ELSE {}
+
+(* --- construction-time faults met through the call side.  Every construction operator on a MapSpec-free base; the       *)
+(* ill-formed pipeline is then asked for EVERY one of its outputs through EVERY call-style entry.  For an output inside  *)
+(* or downstream of the fault an evaluation stumbles into it sooner or later; for one upstream of it, or in another      *)
+(* component of the graph, only a check of the whole pipeline can reject the request - which is what the property asks.  *)
+ConstructionOps == {"rename_collision", "added_edge", "changed_default"}
+CallOp(op) == CASE op = "rename_collision" -> "rename_collision_call" [] op = "added_edge" -> "added_edge_call"
+                [] op = "changed_default" -> "changed_default_call"
+IllFormedCallMutants(b) ==
+    IF ~NoMapSpecs(b.desc) THEN {}
+    ELSE UNION {UNION {{[op |-> CallOp(op), how |-> NoHow, req |-> CallFor(m.desc, o, e, b)] :
+                            o \in AllOutputs(m.desc), e \in CallEntries} : m \in Apply(op, b)} : op \in ConstructionOps}
 
 (* --- the call side: pipeline(out, **kw) on the C02 descriptions; the valid base call passes every root argument that a  *)
 (* needed function reads; one keyword is dropped (missing unless it has a default) or one is added (a name that no        *)
@@ -204,7 +226,7 @@ CallMutants(b) ==
                 : o \in AllOutputs(b.desc)}
 
 AllOps == Ops \cup {"unknown_storage_in_dict", "post_rename_output", "post_rename_param", "post_update_defaults",
-                    "call_dropped_kw", "call_added_kw"}
+                    "call_dropped_kw", "call_added_kw", "rename_collision_call", "added_edge_call", "changed_default_call"}
 (* the clauses a mutation operator can break (law) *)
 OpClauses(op) == CASE op = "rename_collision"  -> {"UniqueOutputs", "OutputNotOwnParam", "Acyclic"}
                    [] op = "added_edge"        -> {"OutputNotOwnParam", "Acyclic"}
@@ -223,8 +245,18 @@ OpClauses(op) == CASE op = "rename_collision"  -> {"UniqueOutputs", "OutputNotOw
                    [] op = "post_update_defaults" -> {"ConsistentDefaults"}
                    [] op = "call_dropped_kw"      -> {"CompleteInputs"}
                    [] op = "call_added_kw"        -> {"NoSurplusInputs"}
+                   [] op = "rename_collision_call" -> {"UniqueOutputs", "OutputNotOwnParam", "Acyclic"}
+                   [] op = "added_edge_call"       -> {"OutputNotOwnParam", "Acyclic"}
+                   [] op = "changed_default_call"  -> {"ConsistentDefaults"}
 
-Mutants == UNION {BasicMutants(b) \cup StorageDictMutants(b) \cup PostMutants(b) \cup CallMutants(b) : b \in Bases}
+AllFamilies == {"basic", "storage_dict", "post_map", "post_call", "call_kw", "illformed_call"}
+ASSUME Families \subseteq AllFamilies
+Mutants == UNION {(IF "basic" \in Families THEN BasicMutants(b) ELSE {})
+                  \cup (IF "storage_dict" \in Families THEN StorageDictMutants(b) ELSE {})
+                  \cup (IF "post_map" \in Families THEN PostMapMutants(b) ELSE {})
+                  \cup (IF "post_call" \in Families THEN PostCallMutants(b) ELSE {})
+                  \cup (IF "call_kw" \in Families THEN CallMutants(b) ELSE {})
+                  \cup (IF "illformed_call" \in Families THEN IllFormedCallMutants(b) ELSE {}) : b \in Bases}
 
 ---------------------------------------------------------------------------
 (* universe part: one behaviour of the Prepare machine per mutant *)
@@ -240,7 +272,8 @@ LawBaseValid      == Valid(BaseReq)                                        \* mu
 LawConj(v)        == (v = "none") <=> ValidConj(mut.req)                   \* Valid is the conjunction of the clauses
 LawOpClause(v)    == v \in OpClauses(mut.op) \cup {"none"}                 \* an operator breaks only its own clauses
 LawMapDenote      == LawAgreesWithMapDenote(mut.req)                       \* the shape clauses are C01's ValidMapRequest
-Laws == AtSecond => LET v == FirstViolated(mut.req) IN LawBaseValid /\ LawConj(v) /\ LawOpClause(v) /\ LawMapDenote
+LawEntryBlind     == ConstructionVerdictIsEntryBlind(mut.req)              \* a construction verdict belongs to the pipeline
+Laws == AtSecond => LET v == FirstViolated(mut.req) IN LawBaseValid /\ LawConj(v) /\ LawOpClause(v) /\ LawMapDenote /\ LawEntryBlind
 InvRejectIsPure       == RejectIsPure
 StorageMutantsOnly    == mut.op \in {"unknown_storage", "unknown_storage_in_dict"}   \* CONSTRAINTs of the runs that look for
 CallMutantsOnly       == mut.op \in {"call_dropped_kw", "call_added_kw"}            \* the implementation-shaped orderings
